@@ -67,6 +67,10 @@ func (t *bodyTr) assignTo(lhs ast.Expr, v int, rel bool, define bool) {
 				t.emit(&node{op: "write", v: r, pos: -1, why: "mut", line: ln})
 			}
 		default:
+			if isObjLike(o.Type()) {
+				t.assignObjVar(o, v, rel, lhs)
+				return
+			}
 			r := t.reg(o)
 			if v >= 0 {
 				t.emit(&node{op: "alias", r: r, v: v, pos: -1, line: ln})
@@ -112,6 +116,9 @@ func (t *bodyTr) assignTo(lhs ast.Expr, v int, rel bool, define bool) {
 			}
 		}
 	case *ast.StarExpr:
+		if isByteElem(t.typeOf(lhs)) && kindOf(t.typeOf(lhs)) == kSlice {
+			t.derefAssign = true
+		}
 		switch kindOf(t.typeOf(lhs)) {
 		case kNone:
 			t.walk(l.X)
@@ -124,6 +131,37 @@ func (t *bodyTr) assignTo(lhs ast.Expr, v int, rel bool, define bool) {
 			store(x)
 		}
 	}
+}
+
+// relType: does a value of this type matter when it is stored, returned or passed on?  Byte slices always;
+// objects unless they are immutable objects somebody else built.
+func (t *bodyTr) relType(typ types.Type, tracked bool) bool {
+	switch k := kindOf(typ); {
+	case typ == nil || k == kNone || k == kArr:
+		return false
+	case isObjLike(typ):
+		return tracked || !immutableType(typ)
+	}
+	return true
+}
+
+// assignObjVar: an object variable receives the object in register v (rel = false: an immutable object the
+// function was handed - not followed as a value, but its byte fields are not the function's memory).
+// The register of the variable's may-alias class is only reset when no other variable can alias it.
+func (t *bodyTr) assignObjVar(o types.Object, v int, rel bool, at ast.Node) {
+	R := t.classReg(o)
+	if v == R {
+		return
+	}
+	if !rel || v < 0 {
+		v = t.objTmpOpaque(at)
+	}
+	if t.singleton(o) {
+		// no other variable can denote this object: the register takes over what v shows
+		t.emit(&node{op: "make", r: R, pos: -1, line: t.line(at)})
+	}
+	// binding a variable is not a store into the object: the class may from now on ALSO denote v
+	t.emit(&node{op: "phi", r: R, vs: []int{R, v}, pos: -1, line: t.line(at)})
 }
 
 // hasInlineBytes: a struct value (not a pointer) with a byte array somewhere inside it
@@ -180,6 +218,12 @@ func (t *bodyTr) stmt(s ast.Stmt) {
 			case len(vs.Values) == 0:
 				for _, nm := range vs.Names {
 					if o := t.p.info.Defs[nm]; o != nil && kindOf(o.Type()) != kNone {
+						if isObjLike(o.Type()) {
+							if t.singleton(o) {
+								t.emit(&node{op: "make", r: t.classReg(o), pos: -1, line: t.line(nm)})
+							}
+							continue
+						}
 						t.emit(&node{op: "make", r: t.reg(o), pos: -1, line: t.line(nm)})
 					}
 				}
@@ -238,10 +282,13 @@ func (t *bodyTr) stmt(s ast.Stmt) {
 			if s.Value != nil {
 				if id, ok := s.Value.(*ast.Ident); ok && id.Name != "_" {
 					if o := t.p.info.ObjectOf(id); o != nil {
-						switch kindOf(o.Type()) {
-						case kArr:
+						switch k := kindOf(o.Type()); {
+						case k == kArr:
 							t.emit(&node{op: "make", r: t.reg(o), pos: -1, line: t.line(s)})
-						case kSlice, kObj:
+						case isObjLike(o.Type()):
+							rel := !immutableType(o.Type()) || t.trackedExpr(s.X)
+							t.assignObjVar(o, xr, rel, s)
+						case k == kSlice || k == kObj:
 							if xr >= 0 {
 								t.emit(&node{op: "alias", r: t.reg(o), v: xr, pos: -1, line: t.line(s)})
 							} else {
@@ -369,13 +416,14 @@ func (t *bodyTr) tupleAssign(lhs []ast.Expr, rhs ast.Expr, define bool) {
 	switch r := unparen(rhs).(type) {
 	case *ast.CallExpr:
 		regs := t.doCall(r)
-		rk := t.resultKinds(r)
+		rts := t.resultTypes(r)
 		for i, l := range lhs {
-			v, k := -1, kNone
-			if i < len(regs) {
-				v, k = regs[i], rk[i]
+			v := -1
+			var rt types.Type
+			if i < len(regs) && i < len(rts) {
+				v, rt = regs[i], rts[i]
 			}
-			t.assignTo(l, v, relevant(k, k == kObj && t.trackedCallRes(r, i)), define)
+			t.assignTo(l, v, t.relType(rt, t.trackedCallRes(r, i)), define)
 		}
 	case *ast.TypeAssertExpr:
 		t.walk(r.X)
@@ -458,38 +506,37 @@ func (t *bodyTr) ret(s *ast.ReturnStmt) {
 	switch {
 	case len(s.Results) == 0:
 		for i, rv := range t.results {
-			k := kindOf(rv.Type())
-			if relevant(k, t.tracked[rv]) {
-				if r, ok := t.regOf[rv]; ok {
-					if k == kObj {
-						t.resTrk[i] = true
-					}
-					t.retOrEscape(i, r, s)
+			if t.relType(rv.Type(), t.tracked[t.find(rv)]) {
+				if rv.Name() == "" || rv.Name() == "_" {
+					continue
 				}
+				if isObjLike(rv.Type()) {
+					t.resTrk[i] = true
+				}
+				t.retOrEscape(i, t.reg(rv), s)
 			}
 		}
 	case len(s.Results) == 1 && n > 1:
 		if c, ok := unparen(s.Results[0]).(*ast.CallExpr); ok {
 			regs := t.doCall(c)
-			rk := t.resultKinds(c)
-			for i := 0; i < n && i < len(regs); i++ {
-				if relevant(rk[i], rk[i] == kObj && t.trackedCallRes(c, i)) {
-					if rk[i] == kObj {
+			rts := t.resultTypes(c)
+			for i := 0; i < n && i < len(regs) && i < len(rts); i++ {
+				if t.relType(rts[i], t.trackedCallRes(c, i)) {
+					if isObjLike(rts[i]) {
 						t.resTrk[i] = true
 					}
 					t.retOrEscape(i, regs[i], s)
 				}
 			}
 		} else {
-			t.walk(s.Results[0])
+			t.fail("multi-valued result that is not a call (line %d)", t.line(s))
 		}
 	default:
 		for i, e := range s.Results {
 			in := t.stripIface(e)
-			k := kindOf(t.typeOf(in))
 			v, rel := t.relVal(e)
 			if rel {
-				if k == kObj && i < n && kindOf(t.results[i].Type()) == kObj {
+				if isObjLike(t.typeOf(in)) && i < n && isObjLike(t.results[i].Type()) {
 					t.resTrk[i] = true
 				}
 				t.retOrEscape(i, v, s)
